@@ -97,6 +97,7 @@ def run_shard(shard):
     if lo == 0:
         rules_family(st)
         empty_left_family(st)
+        alias_family(st)
     return st
 
 
@@ -152,6 +153,52 @@ def empty_left_family(st):
                     st.fail("empty-left|wrong-result|%s" % (
                         "no-document" if not ltext else "empty-container"),
                             case, repr(want), repr(_plain(data)))
+
+
+ALIAS_CASES = [
+    ("l: &l {k: 1}\na: *l\n", "x: [9]\n", "/*",
+     {"l": {"k": 1, "x": [9]}, "a": {"k": 1, "x": [9]}}),
+    ("l: &l [1]\na: *l\n", "[7]\n", "/*", {"l": [1, 7], "a": [1, 7]}),
+    ("l: &l {k: 1}\na: *l\nb: {k: 2}\n", "x: 1\n", "/*",
+     {"l": {"k": 1, "x": 1}, "a": {"k": 1, "x": 1}, "b": {"k": 2, "x": 1}}),
+    ("a: {c: [1], d: [2]}\n", "x: [9]\n", "/a/*[parent()]",
+     {"a": {"c": [1], "d": [2], "x": [9]}}),
+    ("t: [&l {k: 1}, *l, {k: 3}]\n", "x: [9]\n", "/t/*",
+     {"t": [{"k": 1, "x": [9]}, {"k": 1, "x": [9]}, {"k": 3, "x": [9]}]}),
+]
+
+
+def alias_family(st):
+    """A target reached more than once (through an alias, or as the parent
+    of several matches) is one node: it becomes the merge of its old content
+    with the right-hand document - once - and the merge terminates."""
+    for ltext, rtext, at, want in ALIAS_CASES:
+        for pol in POLS[:2]:
+            st.evaluations += 1
+            st.transitions += 1
+            st.validated += 1
+            case = {"lhs": ltext, "rhs": rtext, "mergeat": at, "segs": [],
+                    "policies": pol, "alias_case": True}
+            cfg = mergerun.make_config(pol, mergeat=at)
+            try:
+                with core.watchdog(10):
+                    res, data = mergerun.merge(corpus.load(ltext),
+                                               corpus.load(rtext), cfg)
+            except core.Hang:
+                st.outcomes["alias:hang"] += 1
+                st.fail("alias-target|hang", case, repr(want),
+                        "no result within 10 s")
+                continue
+            st.outcomes["alias:" + res] += 1
+            if res != "ok":
+                st.fail("alias-target|%s" % res, case, repr(want), str(data))
+                continue
+            st.states += 1
+            st.sig("alias-target", ltext, at, pol["hashes"])
+            if pol["hashes"] == "deep" and pol["arrays"] == "all" and \
+                    _plain(data) != want:
+                st.fail("alias-target|wrong-result", case, repr(want),
+                        repr(_plain(data)))
 
 
 def rules_family(st):
@@ -353,8 +400,9 @@ def unorder(t):
 def replay(case):
     from vkit.props import C01
     st = core.Stats(None)
-    if case.get("empty_left"):
+    if case.get("empty_left") or case.get("alias_case"):
         empty_left_family(st)
+        alias_family(st)
         for lst in st.fails.values():
             for f in lst:
                 if all(f["case"][k] == case[k] for k in
